@@ -12,7 +12,9 @@ CLASSES = """
     change 3 - an EDGE or ERROR path: boundary equality, empty or degenerate input, the last element / last block / last file, an exception raised part-way and what state is left behind, rejected input that must leave no trace.
 """ if flavour == "classes" else ("""
   Both changes must be COMPOSITIONS: each needs TWO independent conditions to hold at the same time before anything goes wrong (for example: a particular option AND a particular geometry; a second call on the same object AND an unusual argument type; an error raised part-way AND a later unrelated call; a size above some threshold AND a non-default flag). With only one of the two conditions the behaviour must stay exactly right. Say in meta.json which two conditions are needed. Avoid the most obvious mechanisms (caching a derived array on the object, np.isclose instead of ==, reusing an output buffer): pick something a reviewer would find harder to spot.
-""" if flavour == "compose" else "")
+""" if flavour == "compose" else ("""
+  The change must be INDIRECT: make it in a helper, utility, base class, default argument, unit conversion, shared constant or another module that the code most directly responsible for this property merely relies on (not in the obvious function itself), so that the property breaks through an indirect path while the edited code looks locally reasonable. Other users of the edited code should keep working (the test suite must pass). Avoid: caching a derived array on the object, np.isclose instead of ==, reusing an output buffer, dropping a reset call.
+""" if flavour == "indirect" else ""))
 for l in open('/verif/properties.jsonl'):
     p = json.loads(l)
     if p['id'] == pid:
